@@ -96,7 +96,7 @@ func (w *World) tableOf(g *ssa.Global) *tableInfo {
 func (fv *FuncVC) globalFacts(g *ssa.Global, addr Term) {
 	et := g.Type().Underlying().(*types.Pointer).Elem()
 	if al := fv.TE.Alignof(et); al > 1 {
-		fv.assume(eq(mk(SInt, "mod", addr, intLit(al)), intLit(0)))
+		fv.assumeGlobal(eq(mk(SInt, "mod", addr, intLit(al)), intLit(0)))
 	}
 	at, ok := et.Underlying().(*types.Array)
 	if !ok {
@@ -142,6 +142,6 @@ func (fv *FuncVC) globalFacts(g *ssa.Global, addr Term) {
 		}
 		val = fmt.Sprintf("(ite (= a!t (+ %s %d)) %s %s)", addr.S, idxs[i]*esz, v, val)
 	}
-	fv.assume(Term{S: fmt.Sprintf("(forall ((a!t Int)) (! (=> (and (<= %s a!t) (< a!t (+ %s %d))) (= (select %s a!t) %s)) :pattern ((select %s a!t))))",
+	fv.assumeGlobal(Term{S: fmt.Sprintf("(forall ((a!t Int)) (! (=> (and (<= %s a!t) (< a!t (+ %s %d))) (= (select %s a!t) %s)) :pattern ((select %s a!t))))",
 		addr.S, addr.S, ti.Len*esz, h.S, val, h.S), Sort: SBool})
 }
